@@ -31,6 +31,41 @@ theorem translateLoop_passList (x rest : Bytes) (h : x.all passThru = true) :
     simp only [List.all_cons, Bool.and_eq_true] at h
     simp only [List.cons_append, translateLoop_pass _ _ h.1, ih h.2]
 
+/-- …and those are the only ones (the backslash aside, which switches to escape mode): every other character is
+    replaced by text that starts with a different character -/
+theorem translateLoop_mangles (c : UInt8) (r : Bytes) (h : passThru c = false) (hbs : c ≠ cBs) :
+    ∃ d t, d ≠ c ∧ translateLoop false (c :: r) = d :: t := by
+  simp only [passThru, Bool.not_eq_false', Bool.or_eq_true, beq_iff_eq] at h
+  rcases h with ((((h | h) | h) | h) | h) | h
+  · subst h; exact ⟨cBar, translateLoop false r, by decide, by simp [translateLoop]⟩
+  · subst h; exact ⟨cBs, cDot :: translateLoop false r, by decide, by simp [translateLoop]⟩
+  · subst h; exact ⟨cBs, cPlus :: translateLoop false r, by decide, by simp [translateLoop]⟩
+  · subst h; exact ⟨cDot, cStar :: translateLoop false r, by decide, by simp [translateLoop]⟩
+  · subst h; exact ⟨cDot, translateLoop false r, by decide, by simp [translateLoop]⟩
+  · exact absurd h hbs
+
+/-- the loop leaves a backslash-free text unchanged exactly when the text contains none of `, . + * ?` -/
+theorem translateLoop_fixes_iff (x rest : Bytes) (hbs : cBs ∉ x) :
+    translateLoop false (x ++ rest) = x ++ translateLoop false rest ↔ x.all passThru = true := by
+  constructor
+  · induction x with
+    | nil => intro _; rfl
+    | cons c r ih =>
+      intro h
+      simp only [List.mem_cons, not_or] at hbs
+      cases hp : passThru c
+      · exfalso
+        obtain ⟨d, t, hd, ht⟩ := translateLoop_mangles c (r ++ rest) hp (fun e => hbs.1 e.symm)
+        simp only [List.cons_append, ht, List.cons.injEq] at h
+        exact hd h.1
+      · simp only [List.cons_append, translateLoop_pass _ _ hp, List.cons.injEq, true_and] at h
+        simp [hp, ih hbs.2 h]
+  · exact translateLoop_passList x rest
+
+theorem cls_render_all_pass (neg : Bool) (items : List ClsItem) :
+    (Pat.cls neg items).render.all passThru = (renderItems items).all passThru := by
+  cases neg <;> simp [Pat.render, passThru]
+
 theorem clsChar_pass (c : UInt8) (h : clsChar c = true) : passThru c = true := by
   simp only [clsChar, Bool.not_eq_true', Bool.or_eq_false_iff, beq_eq_false_iff_ne, ne_eq] at h
   simp [passThru, h]
@@ -69,7 +104,7 @@ theorem translateLoop_render (p : Pat) : ∀ (rest : Bytes), p.WF = true →
     intro rest h
     simp only [Pat.WF, Bool.and_eq_true, Bool.or_eq_true] at h
     cases esc with
-    | true => simp [Pat.render, toEre, Ere.render, translateLoop]
+    | true => simp [Pat.render, toEre, Ere.render, translateLoop, keepsBackslash_eq]
     | false =>
       have hp : plain c = true := by simpa using h.2
       simp only [Pat.render, toEre, Ere.render, Bool.false_eq_true, if_false, List.cons_append, List.nil_append]
@@ -107,7 +142,7 @@ theorem translateLoop_render (p : Pat) : ∀ (rest : Bytes), p.WF = true →
 /-- `if ((str[0] == '\\')&&(str[1] == '<')) str++` changes nothing: the loop drops that backslash anyway -/
 theorem translateLoop_skipLt (t : Bytes) :
     translateLoop false (cLt :: t) = translateLoop false (cBs :: cLt :: t) := by
-  simp [translateLoop, ereSpecial]
+  simp [translateLoop, keepsBackslash_eq, ereSpecial]
 
 theorem firstOK_cases (body : Bytes) (h : firstOK body = true) :
     body = [] ∨ ∃ c r, body = c :: r ∧ c ≠ cTilde ∧ c ≠ cTick ∧ c ≠ cLt := by
